@@ -362,6 +362,33 @@ def other_json_routes(r, n):
     return cases
 
 
+def stream_cases(r, n):
+    """--stream on small seekable inputs: the same faults, positions from the token API (environment)"""
+    cases = []
+    for _ in range(n):
+        term = r.choice(list(TERMS.values()))
+        doc = gen_doc(r, term).encode()
+        starts = char_starts(doc)
+        instr = in_string_map(doc)
+        x = r.choice(starts)
+        kind = r.choice(["ctl", "wide", "trunc"])
+        if kind == "wide" and instr[x]:
+            kind = "ctl"
+        if kind == "trunc":
+            if not 0 < x < len(doc):
+                continue
+            t, err = Text().add(doc[:x]), {"k": "eof"}
+        else:
+            t, err = Text().add(doc[:x] + (b"\x01" if kind == "ctl" else "あ".encode()) + doc[x:] + term.encode()), {"k": "syntax", "p": x}
+        c = {"kind": "jsonstream", "text": t, "err": err, "fault": "stream-" + kind, "term": term, "style": "stream", "size": 0, "cb": []}
+        if r.random() < 0.5:
+            c.update(transport="file", tr="file", name="s.json", args=["--stream", "-c", ".", "@FILE@"])
+        else:
+            c.update(transport="redirect", tr="file", name="<stdin>", args=["--stream", "-c", "."])
+        cases.append(c)
+    return cases
+
+
 # ---- YAML: the index is go-yaml's; the arithmetic from the index to the report is gojq's
 
 def yaml_cases(r, n):
@@ -537,10 +564,9 @@ def d9_counterexample(res):
     return {"pre": ints(m.group(1)), "ed": ints(m.group(2)), "x": int(m.group(3)), "tr": ints(m.group(4)), "hist": ints(h[-1])}
 
 
-def concretise(cex):
-    """Scale TLC's counterexample to the real constants: every digit becomes a 4100-digit number
-    (THRESH 4 -> 16384), the reads become the write schedule."""
-    K = 4100
+def concretise(cex, K):
+    """TLC's counterexample with the real constants: the same stream with every digit replaced by K
+    digits, the reads taken as the write schedule (positions mapped)."""
     t = Text()
     pos_map = [0]
 
@@ -621,7 +647,7 @@ def case_from_replay(d):
     return c
 
 
-KNOWN = {"known_d9": F_D9, "known_d13": F_D13, "known_tok": F_TOK, "known_yaml": F_YAML}
+KNOWN = {"known_d9": F_D9, "known_d13": F_D13, "known_tok": F_TOK, "known_yaml": F_YAML, "known_stream": F_STREAM}
 
 
 def check_cases(rep, work, vh, gojq, cases, tag="t"):
@@ -718,6 +744,7 @@ def run(tier, seed, replay_path):
             cases += json_fault_cases(r, 6 if quick else 40, 260 if quick else 100000, big=not quick)
             cases += bigdoc_cases(r, 250 if quick else 4000)
             cases += other_json_routes(r, 120 if quick else 1500)
+            cases += stream_cases(r, 150 if quick else 2500)
             cases += yaml_cases(r, 200 if quick else 3000)
             cases += query_cases(r, 700 if quick else 8000)
             cases += query_cases(r, 1500 if quick else 30000, lib_only=True)
@@ -727,11 +754,12 @@ def run(tier, seed, replay_path):
         # TLC's counterexample for the property on the code-level model, at the real constants
         cex = d9_counterexample(jobs["d9"])
         if cex:
-            cc = concretise(cex)
+            ccs = [c for c in (concretise(cex, K) for K in (4100, 9000, 17000, 40000)) if c]
             rep.cov["tlc_counterexample"] = cex
-            if cc:
-                c2 = check_cases(rep, work, vh, gojq, [cc], tag="cex")
+            if ccs:
+                c2 = check_cases(rep, work, vh, gojq, ccs, tag="cex")
                 rep.cov["tlc_counterexample_on_real_binary"] = c2
+                rep.cov["tlc_counterexample_reproduced"] = c2.get("known_d9", 0) > 0
         rep.cov["verdicts"] = counters
         rep.cov["cases"] = len(cases)
         rep.cov["exhaustive"] = True
